@@ -132,6 +132,22 @@ func (r *Recomposer) registerComposer(rt reflect.Type, fun RecomposeFunc) (*comp
 	return c, nil
 }
 
+// lazyComposer builds the composer for a type met during recomposition. It is
+// remembered by its full name only so that it never takes the short name, the
+// one used with a create key, away from a type that was registered for it.
+func (r *Recomposer) lazyComposer(rt reflect.Type) *composer {
+	c := &composer{
+		short:   rt.Name(),
+		full:    rt.PkgPath() + "/" + rt.Name(),
+		rtype:   rt,
+		indexes: indexType(rt),
+	}
+	if 0 < len(c.short) {
+		r.composers[c.full] = c
+	}
+	return c
+}
+
 // composerFor returns the registered composer for the type or nil if there is
 // none. A composer registered for another type with the same name is not
 // returned.
@@ -485,8 +501,7 @@ func (r *Recomposer) recomp(v any, rv reflect.Value) {
 			}
 			im = c.indexes
 		} else {
-			c, _ = r.registerComposer(rv.Type(), nil)
-			im = c.indexes
+			im = r.lazyComposer(rv.Type()).indexes
 		}
 		for k := range im {
 			sf := im[k]
